@@ -269,6 +269,120 @@ fn policy_case(rep: &mut Report, args: &Args, case: u64) {
     prog::uninstall(&c.programs);
 }
 
+/// (5) verdict consistency: ticks in which one accepted rewrite emits two ops
+/// for the same key (divergent: the canonical merge must refuse the tick;
+/// identical: the merge must dedupe them). Whether such a tick commits must not
+/// depend on how the work units are spread over workers: the serial verdict
+/// (committed tuple / refused) is compared with all-units-on-one-worker,
+/// round-robin, random and racing schedules.
+fn verdict_case(rep: &mut Report, args: &Args, case: u64) {
+    use crate::prog::Mop;
+    let Ok(mut c) = c01::gen_case(args.seed, "C02/verdict", case, SizeClass::Small, false, true) else {
+        rep.inconclusive("generator");
+        return;
+    };
+    let mut rng = Rng::for_case(args.seed, "C02/verdict-sched", case);
+    let present = vec![true; c.programs.len()];
+    let plan = tick::ref_plan(&c.programs, &present, &c.graph.descent);
+    // accepted programs that set an attachment
+    let mut cands: Vec<(usize, usize)> = Vec::new();
+    for (pos, &i) in plan.order.iter().enumerate() {
+        if !plan.accepted[pos] {
+            continue;
+        }
+        for (k, op) in c.programs[i].ops.iter().enumerate() {
+            if matches!(op, Mop::SetNodeAtt { .. } | Mop::SetEdgeAtt { .. } | Mop::ClearNodeAtt(_) | Mop::ClearEdgeAtt(_)) {
+                cands.push((i, k));
+            }
+        }
+    }
+    if cands.is_empty() {
+        return;
+    }
+    let (pi, ki) = *rng.pick(&cands);
+    let divergent = rng.chance(2, 3);
+    let op = c.programs[pi].ops[ki].clone();
+    let extra = match (&op, divergent) {
+        // same key, different value (the written value is H(reads, op index))
+        (Mop::SetNodeAtt { .. } | Mop::SetEdgeAtt { .. }, true) => op.clone(),
+        (Mop::ClearNodeAtt(n), true) => Mop::SetNodeAtt { node: *n, ty: crate::gen::atom_types()[0], len: 5 },
+        (Mop::ClearEdgeAtt(e), true) => Mop::SetEdgeAtt { edge: *e, ty: crate::gen::atom_types()[0], len: 5 },
+        // identical second op
+        (Mop::ClearNodeAtt(_) | Mop::ClearEdgeAtt(_), false) => op.clone(),
+        _ => return,
+    };
+    c.programs[pi].ops.push(extra);
+    // footprint is unchanged: the second op hits an already declared target
+    let kind = if divergent { "divergent-ops-one-key" } else { "identical-duplicate-op" };
+    let replay = json!({"mode": "verdict", "seed": args.seed, "case": case});
+    prog::install(&c.programs);
+    let canonical: Vec<usize> = (0..c.programs.len()).collect();
+    claim::clear();
+    let serial = tick::run_tick(&c.pre, c.graph.root, &c.programs, &canonical, &c.graph.descent, &TickConfig::default());
+    let want = match &serial {
+        TickResult::Committed(cm) => Some(tick::outcome_tuple(cm)),
+        TickResult::Failed { .. } => None,
+        TickResult::Harness(e) => {
+            rep.inconclusive(&format!("harness: {e}"));
+            prog::uninstall(&c.programs);
+            return;
+        }
+    };
+    rep.eval();
+    rep.observe("verdict_case_kinds", &format!("{kind}:serial-{}", if want.is_some() { "committed" } else { "refused" }));
+    let mut schedules: Vec<(usize, Mode, &'static str)> = vec![
+        (4, Mode::Explicit(vec![0]), "all-units-on-one-worker"),
+        (2, Mode::Explicit(vec![1]), "all-units-on-one-worker"),
+        (4, Mode::Explicit(vec![0, 1, 2, 3]), "round-robin"),
+        (2, Mode::Explicit(vec![0, 1]), "round-robin"),
+        (3, Mode::Jitter(rng.next_u64()), "racing"),
+        (8, Mode::Observe, "racing"),
+    ];
+    for _ in 0..4 {
+        let w = rng.range_usize(2, 6);
+        schedules.push((w, Mode::Explicit((0..rng.range_usize(2, 12)).map(|_| rng.below_usize(w)).collect()), "random"));
+    }
+    let mut units_seen = 0usize;
+    for (workers, mode, what) in schedules {
+        let cfg = TickConfig { workers, ..TickConfig::default() };
+        let desc = format!("{mode:?}").chars().take(60).collect::<String>();
+        claim::install(mode);
+        let res = tick::run_tick(&c.pre, c.graph.root, &c.programs, &canonical, &c.graph.descent, &cfg);
+        let runs = claim::take_runs();
+        claim::clear();
+        rep.eval();
+        rep.count("verdict_schedules_run", 1);
+        if let Some(r) = runs.last() {
+            units_seen = units_seen.max(r.n_units);
+        }
+        let mut rp = replay.clone();
+        rp["workers"] = json!(workers);
+        rp["schedule"] = json!(desc);
+        match (&want, res) {
+            (Some(w), TickResult::Committed(cm)) => {
+                let got = tick::outcome_tuple(&cm);
+                if let Some(k) = tick::first_tuple_diff(w, &got) {
+                    rep.violation(&format!("C02:verdict:{kind}:{what}:{k}"), &format!("`{k}` differs between the serial run and {workers} workers ({desc}) for a tick with {kind}"), rp);
+                }
+            }
+            (None, TickResult::Failed { .. }) => {}
+            (Some(_), TickResult::Failed { why, .. }) => {
+                rep.violation(&format!("C02:verdict:{kind}:{what}:serial-committed-parallel-refused"),
+                    &format!("a tick in which one rewrite emits {kind} commits on one worker but is refused with {workers} workers under {desc}: {}", why.describe()), rp);
+            }
+            (None, TickResult::Committed(_)) => {
+                rep.violation(&format!("C02:verdict:{kind}:{what}:serial-refused-parallel-committed"),
+                    &format!("a tick in which one rewrite emits {kind} is refused on one worker but commits with {workers} workers under {desc}"), rp);
+            }
+            (_, TickResult::Harness(e)) => rep.inconclusive(&format!("harness: {e}")),
+        }
+    }
+    if units_seen >= 2 {
+        rep.nontrivial(format!("verdict-{case}-{kind}-{units_seen}").as_bytes());
+    }
+    prog::uninstall(&c.programs);
+}
+
 /// Interpreter lane: one hand-sized tick (4 nodes in 3 shards, 3 programs, no
 /// random graph construction) — serial, every 2-worker assignment (2^3), and a
 /// few racing runs. Miri checks the scoped-thread work queue, the claim counter
@@ -350,6 +464,7 @@ pub fn replay(args: &Args, path: &std::path::Path, mut rep: Report) -> i32 {
     match r["mode"].as_str() {
         Some("exhaustive") => exhaustive_case(&mut rep, &a2, case, 6),
         Some("policy") => policy_case(&mut rep, &a2, case),
+        Some("verdict") => verdict_case(&mut rep, &a2, case),
         _ => {
             let size = match r["size"].as_str() { Some("Medium") => SizeClass::Medium, Some("AroundThreshold") => SizeClass::AroundThreshold, Some("Large") => SizeClass::Large, _ => SizeClass::Small };
             large_case(&mut rep, &a2, case, size, 30, 60);
@@ -406,7 +521,13 @@ pub fn run(args: &Args) -> i32 {
         if b.expired() { break; }
         policy_case(&mut rep, args, case);
     }
+    let b = budget.slice(0.15);
+    let n_verdict = if slow { 6 } else { args.by_tier(60u64, 2000) };
+    for case in 0..n_verdict {
+        if b.expired() { break; }
+        verdict_case(&mut rep, args, case);
+    }
     rep.assumption("within one worker the claim order is ascending (atomic counter), so unit->worker assignments are the whole reachable schedule space of execute_work_queue; interleavings of claims are unobservable because each worker owns its delta and the pre-state is immutable during execution");
-    rep.assumption("ticks whose commit fails are outside the property ('committed tick')");
+    rep.assumption("a tick that is refused is outside 'committed tick', but WHETHER a tick commits is part of the outcome: the verdict phase requires refused/committed to agree across schedules; two refusals may carry different payloads");
     rep.finish(args.by_tier(30, 500))
 }
